@@ -1,6 +1,6 @@
 """C05 - evaluation is deterministic, idempotent and order-independent.
 
-Engine H over evaluation schedules.  For each of 12 small acyclic models:
+Engine H over evaluation schedules.  For each of 14 small acyclic models:
   seq    every sequence (with repetition) of evaluate(cell) up to a length
          bound by ONE evaluator, on a fresh real model;
   multi  every sequence of (evaluator, cell) up to a length bound with three
@@ -32,7 +32,7 @@ from ..gen import models
 PROPERTY = 'C05'
 LEVEL = 'model_checking'
 ENGINE = 'xlmc-H'
-RULE = ('all evaluate() schedules up to a length bound on 12 models, by one '
+RULE = ('all evaluate() schedules up to a length bound on 14 models, by one '
         'evaluator (seq) and by three evaluators sharing the model (multi), '
         'executed on fresh real models; plus heap-fixpoint runs of periodic '
         'schedules; non-trivial = the schedule evaluates a formula cell after '
@@ -52,7 +52,7 @@ TECHNIQUE = ('exhaustive enumeration of evaluation schedules (1 and 3 '
              'evaluators) on the real implementation against fresh-model '
              'values and an initial-snapshot invariant; heap fixpoint over '
              'periodic schedules')
-LEVEL_TEXT = ('Every order, with repetitions, in which the cells of 12 '
+LEVEL_TEXT = ('Every order, with repetitions, in which the cells of 14 '
               'dependency shapes can be evaluated up to the length bound - by '
               'one evaluator and interleaved over three evaluators - runs on '
               'the real library; each result is compared with the cell '
@@ -88,8 +88,16 @@ _REF = {}
 
 def ref_values(spec):
     if spec.name not in _REF:
-        r = spec.reference(spec.initial_inputs())
-        _REF[spec.name] = {a: models.obs(v, lib) for a, v in r.items()}
+        if spec.differential:
+            vals = {}
+            for a in spec.eval_cells:
+                m = models.build(spec, lib)
+                vals[a] = lib.observe(lib.Evaluator(m).evaluate, a)
+                lib.clear_caches()
+            _REF[spec.name] = vals
+        else:
+            r = spec.reference(spec.initial_inputs())
+            _REF[spec.name] = {a: models.obs(v, lib) for a, v in r.items()}
     return _REF[spec.name]
 
 
